@@ -1,0 +1,84 @@
+//go:build verif
+
+package rpc
+
+import (
+	"reflect"
+	"sort"
+)
+
+// verification exports (C18). Add-only; compiled with -tags verif only.
+
+// VerifMethod describes one callback as the server's registry holds it.
+type VerifMethod struct {
+	Namespace    string         // service name ("aqua", "personal", ...)
+	Name         string         // wire name within the namespace (first rune lower-cased)
+	GoName       string         // Go method name
+	Recv         reflect.Type   // receiver type of the callback
+	Subscription bool           // registered in subscriptions rather than callbacks
+	HasCtx       bool           // first argument is a context.Context
+	ArgTypes     []reflect.Type // argument types after receiver/context
+}
+
+func verifMethodOf(ns, name string, cb *callback) VerifMethod {
+	return VerifMethod{Namespace: ns, Name: name, GoName: cb.method.Name, Recv: cb.rcvr.Type(),
+		Subscription: cb.isSubscribe, HasCtx: cb.hasCtx, ArgTypes: append([]reflect.Type(nil), cb.argTypes...)}
+}
+
+func verifSort(out []VerifMethod) []VerifMethod {
+	sort.Slice(out, func(i, j int) bool {
+		if out[i].Namespace != out[j].Namespace {
+			return out[i].Namespace < out[j].Namespace
+		}
+		if out[i].Subscription != out[j].Subscription {
+			return !out[i].Subscription
+		}
+		return out[i].Name < out[j].Name
+	})
+	return out
+}
+
+// VerifListMethods lists every callback and subscription currently registered
+// on the server (Server.services), sorted.
+func (s *Server) VerifListMethods() []VerifMethod {
+	var out []VerifMethod
+	for ns, svc := range s.services {
+		for name, cb := range svc.callbacks {
+			out = append(out, verifMethodOf(ns, name, cb))
+		}
+		for name, cb := range svc.subscriptions {
+			out = append(out, verifMethodOf(ns, name, cb))
+		}
+	}
+	return verifSort(out)
+}
+
+// VerifSuitableCallbacks lists what suitableCallbacks finds on rcvr, i.e. the
+// method set RegisterName starts from before it filters protected names.
+func VerifSuitableCallbacks(namespace string, rcvr interface{}) []VerifMethod {
+	rcvrVal := reflect.ValueOf(rcvr)
+	methods, subscriptions := suitableCallbacks(rcvrVal, reflect.TypeOf(rcvr))
+	var out []VerifMethod
+	for name, cb := range methods {
+		out = append(out, verifMethodOf(namespace, name, cb))
+	}
+	for name, cb := range subscriptions {
+		out = append(out, verifMethodOf(namespace, name, cb))
+	}
+	return verifSort(out)
+}
+
+// VerifIsProtectedMethodName exposes isProtectedMethodName (argument: Go method name).
+func VerifIsProtectedMethodName(goName string) bool { return isProtectedMethodName(goName) }
+
+// VerifSignFlags returns the opt-in flags as this process read them from the
+// environment at start-up, keyed by environment variable name.
+func VerifSignFlags() map[string]bool {
+	return map[string]bool{
+		"UNSAFE_RPC_SIGNING":       allow_all_rpc_signing,
+		"UNSAFE_ALLOW_SIGN_IPC":    allow_sign_ipc,
+		"UNSAFE_RPC_SIGNING_HTTP":  allow_sign_http,
+		"UNSAFE_RPC_SIGNING_WS":    allow_sign_ws,
+		"UNSAFE_ALLOW_SIGN_INPROC": allow_sign_inProc,
+	}
+}
